@@ -4,7 +4,7 @@ namespace Fundraising
 
 /-- in a list with pairwise distinct ids, selecting the bids whose id occurs among the ids of a
     sublist `m` gives back `m` -/
-theorem filter_ids_sublist_eq : ∀ {m l : List Bid}, m.Sublist l → (l.map (·.id)).Nodup →
+private theorem filter_ids_sublist_eq : ∀ {m l : List Bid}, m.Sublist l → (l.map (·.id)).Nodup →
     l.filter (fun b => (m.map (·.id)).contains b.id) = m := by
   intro m l hsub
   induction hsub with
@@ -42,13 +42,13 @@ theorem filter_ids_sublist_eq : ∀ {m l : List Bid}, m.Sublist l → (l.map (·
 
 /-- the number of recorded bids whose id is among the ids of the matched bids is the number of
     matched bids -/
-theorem matched_count_eq (bids sorted matched : List Bid) (hperm : sorted.Perm bids)
+private theorem matched_count_eq (bids sorted matched : List Bid) (hperm : sorted.Perm bids)
     (hnd : (bids.map (·.id)).Nodup) (hsub : matched.Sublist sorted) :
     (bids.filter (fun b => (matched.map (·.id)).contains b.id)).length = matched.length := by
   have hnd' : (sorted.map (·.id)).Nodup := ((hperm.map (·.id)).nodup_iff).2 hnd
   rw [← (hperm.filter _).length_eq, filter_ids_sublist_eq hsub hnd']
 
-theorem countMatched_flag (bids : List Bid) (ids : List Nat) :
+private theorem countMatched_flag (bids : List Bid) (ids : List Nat) :
     countMatched (bids.map (fun b => { b with matched := ids.contains b.id })) =
       ((bids.filter (fun b => ids.contains b.id)).length : Int) := by
   unfold countMatched
